@@ -936,6 +936,7 @@ func TestVerifC01(t *testing.T) {
 		func(c c01ByteCase) []vrt.Finding { return c01CheckSeam(r, c01ByteWire(c)) })
 
 	c01TierB(r)
+	c01TimeoutParts(r)
 
 	r.Finish()
 	os.Exit(0)
